@@ -84,8 +84,48 @@ def _history(v, props, end_compact):
     ]
 
 
+IMPL_CFG = """SPECIFICATION Spec
+CONSTANTS
+  IdSet = {ids}
+  HandleSet = {{1, 2}}
+  MaxCalls = {calls}
+  EmptyCompactionDropsAll = {empty}
+  GenFromTag = {gentag}
+INVARIANT OneCopy
+INVARIANT RefinesCore
+VIEW View
+{extra}
+CHECK_DEADLOCK FALSE
+"""
+
+
+def _mc_impl(v):
+    """IndexImpl.tla: the segment/tombstone/live-cache implementation refines IndexCore; the two
+    generation mutations (seeded changes C04/C05) must be refuted by the same invariants."""
+    quick = v.tier == "quick"
+    calls = 6 if quick else 8
+    cfg = lib.write_cfg("MC_IndexImpl_ideal_run.cfg", IMPL_CFG.format(ids="{1, 2}", calls=calls, empty="FALSE", gentag="FALSE", extra=""))
+    ideal = lib.tlc_mc("IndexImpl.tla", cfg, timeout=3000)
+    lib.require_mc_ok(ideal, "IndexImpl (as built)", need_actions=["NewWriter", "Add", "Delete", "Commit", "Rollback", "Compact"])
+    cfg = lib.write_cfg("MC_IndexImpl_gentag_run.cfg", IMPL_CFG.format(ids="{1, 2}", calls=10, empty="FALSE", gentag="TRUE", extra="CONSTRAINT SmallPending"))
+    r = lib.tlc_mc("IndexImpl.tla", cfg, timeout=1500, coverage=False)
+    lib.expect_mc_violation(r, "IndexImpl with generation taken from the handle's tag", {"OneCopy", "RefinesCore"})
+    cfg = lib.write_cfg("MC_IndexImpl_emptycompact_run.cfg", IMPL_CFG.format(ids="{1}", calls=15, empty="TRUE", gentag="FALSE", extra="CONSTRAINT SmallPending"))
+    r = lib.tlc_mc("IndexImpl.tla", cfg, timeout=1500, coverage=False)
+    lib.expect_mc_violation(r, "IndexImpl with empty compaction dropping every segment", {"OneCopy", "RefinesCore"})
+    return ideal, calls
+
+
 def run_c04(v):
     _history(v, {"C04"}, end_compact=False)
+    ideal, calls = _mc_impl(v)
+    v.coverage["states"] += ideal["distinct"]
+    v.coverage["transitions"] += ideal["states"]
+    v.coverage["impl_refinement_model"] = {
+        "module": "IndexImpl.tla", "bounds": "2 ids, 2 handles, <= %d calls, exhaustive" % calls,
+        "distinct_states": ideal["distinct"], "invariants": ["OneCopy", "RefinesCore"],
+        "mutations_refuted": ["GenFromTag", "EmptyCompactionDropsAll"],
+    }
 
 
 def run_c14(v):
